@@ -65,6 +65,15 @@ psRes_t psVerifySig(psPool_t *pool,
     {
 # ifdef USE_RSA
     case PS_RSA:
+        /* The recovered message is written to out[]: never accept a
+           reference message longer than that buffer. (RSASSA-PSS does
+           not use out[].) */
+        if (!(opts && opts->useRsaPss) && msgInLen > sizeof(out))
+        {
+            psTraceCrypto("psVerifySig: msgIn too long for RSA PKCS #1.5\n");
+            rc = PS_ARG_FAIL;
+            goto out;
+        }
 #  ifdef USE_PKCS1_PSS
         if (opts && opts->useRsaPss)
         {
